@@ -98,12 +98,36 @@ theorem all_started_exactly_once_when_complete {c : Config} {tr : List Label} {s
       · rw [hint] at h1; cases h1
       · rw [hr] at h1; cases h1
     | cancelled => exact absurd hx (hno i).1
-    | vanished => exact absurd hx (hno i).2.1
     | notLaunched => rw [hx] at ht; cases ht
     | waiting => rw [hx] at ht; cases ht
     | running b => rw [hx] at ht; cases ht
   obtain ⟨r, hr'⟩ := hdone
   exact ⟨by rw [h.startCount_eq, hr']; rfl, r, hr', h.done_processed i r hr'⟩
+
+/-- reports are truthful also when the run is cut short: in a complete run every test that was started has
+exactly one processed, finished result (since the repair of `TestSubprocess.wait` / `_run_cmd` a cancellation
+can no longer drop a started test; the model has no transition that ends a started test without a result) -/
+theorem started_is_reported {c : Config} {tr : List Label} {s : State} (h : Exec c tr s)
+    (hf : s.main = .finished) (i : Nat) (h1 : startCount i tr = 1) :
+    ∃ r, s.st i = .done r ∧ r.isFinished = true ∧ r ∈ resultsOf tr := by
+  rw [h.startCount_eq] at h1
+  have hst : (s.st i).started = true := by
+    cases hq : (s.st i).started with
+    | true => rfl
+    | false => rw [hq] at h1; simp at h1
+  have hl : i < s.next := by
+    apply Nat.lt_of_not_le
+    intro hle
+    have := h.inv.notLaunched i hle
+    rw [this] at hst; cases hst
+  have ht := h.cutInv.finishedTerminal hf i hl
+  cases hx : s.st i with
+  | done r => exact ⟨r, rfl, h.done_processed i r hx⟩
+  | running b => rw [hx] at ht; cases ht
+  | notLaunched => rw [hx] at hst; cases hst
+  | waiting => rw [hx] at hst; cases hst
+  | skipped => rw [hx] at hst; cases hst
+  | cancelled => rw [hx] at hst; cases hst
 
 /-- conversely: a runner that was never started in a complete run is excused only by an interruption
 (which only `--maxfail` causes, after that many failures) or by a failure under `--repeat` -/
@@ -121,7 +145,6 @@ theorem unstarted_only_when_cut {c : Config} {tr : List Label} {s : State} (h : 
   · have ht := ci.finishedTerminal hf i hl
     cases hx : s.st i with
     | done r => rw [hx] at h0; simp [St.started] at h0
-    | vanished => rw [hx] at h0; simp [St.started] at h0
     | running b => rw [hx] at ht; cases ht
     | waiting => rw [hx] at ht; cases ht
     | notLaunched => rw [hx] at ht; cases ht
